@@ -58,7 +58,7 @@ extern "C" lzma_ret lzma_code(lzma_stream* s, lzma_action act) { static auto rea
 
 // ------------------------------------------------------------------ scenarios
 struct Step { char op; int n; std::string name; bool exp; };      // 'Q' buffer n records, 'R' rotate(name, exp), 'W' write_block
-struct Scenario { std::string name; int comp; bool fd; std::vector<Step> steps; std::string preexisting; bool stale_part = false; };
+struct Scenario { std::string name; int comp; bool fd; std::vector<Step> steps; std::string preexisting; bool stale_part = false; bool devnull_first = false; };
 static const char* ext_of(int comp) { return comp == 1 ? ".gz" : comp == 2 ? ".xz" : ""; }
 
 static std::vector<Scenario> scenarios(bool fd_too) {
@@ -75,6 +75,8 @@ static std::vector<Scenario> scenarios(bool fd_too) {
         if (!fd) v.push_back({"entropy-rotations-" + c, comp, false, {{'H', 4, "", false}, {'R', 0, "outB", true}, {'H', 3, "", false}, {'R', 0, "outA", true}, {'H', 2, "", false}}, ""});
         // a previous run died and left '<name><suffix>.part' files behind (for the first output and for a rotation target): they must not leak into the new outputs
         if (!fd) v.push_back({"stale-part-" + c, comp, false, {{'Q', 2, "", false}, {'R', 0, "outB", true}, {'Q', 1, "", false}}, "", true});
+        // the first name is a symbolic link to /dev/null ("discard until the first rotation"): the later outputs are ordinary names and get the ordinary treatment
+        if (!fd) { v.push_back({"from-devnull-" + c, comp, false, {{'Q', 2, "", false}, {'R', 0, "outB", true}, {'Q', 3, "", false}}, "", false}); v.back().devnull_first = true; }
         v.push_back({"buffered-unwritten-" + c, comp, (bool)fd, {{'Q', 1, "", false}}, ""});
         v.push_back({"nothing-" + c, comp, (bool)fd, {}, ""});
     }
@@ -170,6 +172,7 @@ int main(int argc, char** argv) {
     auto explore = [&](const Scenario& sc, Result& R, long only_k, int only_fault, int only_persist) {
         std::string dir = top + "/t" + std::to_string(getpid()); mkdir(dir.c_str(), 0700); g_track = dir;
         auto prepare = [&]() { clean_dir(dir);
+            if (sc.devnull_first) { if (symlink("/dev/null", (dir + "/outA" + ext_of(sc.comp)).c_str()) != 0) { fprintf(stderr, "symlink failed\n"); _exit(2); } }
             if (sc.stale_part) for (const char* n : {"outA", "outB"}) { std::string junk(20000, 0); for (size_t i = 0; i < junk.size(); i++) junk[i] = (char)(i * 7 + 3); spit(dir + "/" + n + ext_of(sc.comp) + ".part", junk); }
             if (!sc.preexisting.empty()) {
             // older complete output of the same kind under the final name
@@ -189,7 +192,7 @@ int main(int argc, char** argv) {
         for (size_t i = 0; i < ref_log.closed_paths.size(); i++) { std::string n = ref_log.closed_paths[i].substr(dir.size() + 1); legit[n].insert(i < ref_log.snap.size() && i + 1 < ref_log.closed_paths.size() ? ref_log.snap[i] : (final_files.count(n) ? final_files[n] : std::string())); }
         for (auto& kv : final_files) legit[kv.first].insert(kv.second);
         // self-check of the uninterrupted run: all data writes go to *.part (named), every non-empty legit version is a complete valid file
-        if (!sc.fd) for (auto& c : trace) if (c.kind != 'r' && (c.path.size() < 5 || c.path.compare(c.path.size() - 5, 5, ".part") != 0)) R.violation("fault|data-written-to-final-name|" + sc.name, "data written to " + c.path.substr(dir.size()), "scenario=" + sc.name + ";k=0");
+        if (!sc.fd) for (auto& c : trace) if (c.kind != 'r' && (c.path.size() < 5 || c.path.compare(c.path.size() - 5, 5, ".part") != 0)) R.violation("fault|data-written-to-final-name|" + sc.name, "data written to " + (c.path.size() > dir.size() && c.path.compare(0, dir.size(), dir) == 0 ? c.path.substr(dir.size()) : c.path), "scenario=" + sc.name + ";k=0");
         for (auto& kv : legit) for (auto& content : kv.second) if (!content.empty() && kv.first.find(".part") == std::string::npos) { std::string plain; bool ok = decompress(sc.comp, content, plain); if (ok && !plain.empty()) { try { ref::read_file(plain); } catch (std::exception& x) { ok = false; } } if (!ok) R.violation("fault|uninterrupted-output-invalid|" + sc.name, kv.first + " of the uninterrupted run is not a complete valid file", "scenario=" + sc.name + ";k=0"); }
         if (crash_mode) {
             for (long k = 1; k <= K; k++) {
